@@ -105,12 +105,16 @@ def run():
 
     def one(c):
         env, args = build(c)
-        return c, run_probe(binary, env, args)
+        d = run_probe(binary, env, args)
+        if d is None:
+            d = run_probe(binary, env, args)    # (a start-up normally takes 60 ms; one more try)
+        return c, d
     results = vlib.parallel_map(one, cases)
     recs = []
     for c, d in results:
         if d is None:
-            raise vlib.ModelFailure("probe timed out for %s" % c)
+            chk.violation("the runtime did not start within 60 s (twice) for case %s" % json.dumps(c), dict(case=c, probe="timeout"))
+            continue
         v = observe(c, d)
         rec = dict(c)
         rec.setdefault("app", "-")
